@@ -1,6 +1,7 @@
 \* intended switches, quick family: TLC must pass; PROG lines feed the replay
 CONSTANTS LoopDelayOwnFreeVars = TRUE LoopDurationMapped = TRUE ParamValuesReachDelays = TRUE
           ChecksBeforeSave = TRUE AliasesReachDurations = TRUE
+          DelayInputsForbidden = TRUE ExpandKeepsElements = TRUE
           Family = "quick"
 INIT Init
 NEXT Next
